@@ -42,7 +42,12 @@ def run_case(case):
                for w in (s.get("writes") or
                          [x for ws in s.get("writers", []) for x in ws])
                if w.get("meta", [""])[0] == "mut")
+    nests = sum(1 for s in hist["sessions"]
+                for w in (s.get("writes") or
+                          [x for ws in s.get("writers", []) for x in ws])
+                if w.get("meta", [""])[0] == "nest")
     res.setdefault("faults", {})["metadata_object_mutated_in_place"] = muts
+    res["faults"]["nested_value_of_metadata_object_mutated_in_place"] = nests
     return res
 
 
@@ -57,4 +62,7 @@ def reach(agg):
         need.append("no selection by metadata exercised")
     if not agg["faults"].get("metadata_object_mutated_in_place"):
         need.append("aliasing fault never injected")
+    if not agg["faults"].get(
+            "nested_value_of_metadata_object_mutated_in_place"):
+        need.append("nested aliasing fault never injected")
     return need
